@@ -46,6 +46,8 @@ import (
 	"github.com/ozontech/seq-db/storeapi"
 	"github.com/ozontech/seq-db/tests/setup"
 
+	"google.golang.org/grpc"
+
 	"verif/harness/internal/casefile"
 	"verif/harness/internal/rng"
 )
@@ -201,10 +203,38 @@ var plainKeys = []string{"level", "message", "ts", "k8s_pod", "a", "b", "c", "d"
 var oddKeys = []string{"", " ", "we\"ird", "back\\slash", "tab\there", "new\nline", "ключ", "日本語", "emoji😀", "with space",
 	"a/b", "a*b", "x:y", "p|q", "c,d", "fields", "except", "é", "\u0001ctl", "q'uote", "UPPER", "upper", "ab", "abc", "Level", "MESSAGE", "a.b", "a", "ümlaut", "-dash", "a-b"}
 
+// names of 62..517 BYTES: k8s-label-like ASCII (bare in a pipe), labels with / and - (quoted in a pipe),
+// multi-byte UTF-8 names whose byte length (not rune count) hits the boundary
+var longLens = []int{62, 63, 64, 65, 127, 128, 255, 300, 517}
+
+func longKey(r *rng.R) string {
+	L := rng.Pick(r, longLens)
+	var segs []string
+	switch r.Intn(3) {
+	case 0:
+		segs = []string{"k8s_node_label_", "topology.kubernetes.io_", "zone_", "app.kubernetes.io_", "instance_", "pod_template_hash_", "x"}
+	case 1:
+		segs = []string{"k8s_node_label_", "topology.kubernetes.io/", "zone-", "beta.kubernetes.io/", "arch-", "failure-domain/", "x"}
+	default:
+		segs = []string{"ключ_", "значение.", "日本語", "😀", "метка-", "é", "x"}
+	}
+	b := []byte(fmt.Sprintf("%s%d_", segs[0], r.Intn(1000)))
+	for len(b) < L {
+		sg := rng.Pick(r, segs)
+		if len(b)+len(sg) > L {
+			sg = "x"
+		}
+		b = append(b, sg...)
+	}
+	return string(b[:L]) // the tail is ASCII padding, so the cut never splits a rune
+}
+
 func pickKey(r *rng.R) string {
-	switch r.Intn(10) {
+	switch r.Intn(12) {
 	case 0, 1, 2:
 		return rng.Pick(r, oddKeys)
+	case 4:
+		return longKey(r)
 	case 3:
 		n := r.Range(1, 6)
 		b := make([]byte, n)
@@ -520,13 +550,16 @@ func filterBatch(w *casefile.Writer, docs [][]byte, fields []string, allow bool,
 			class = prefix + "empty-filter"
 		}
 		// non-trivial: at least one field removed and one kept, in a document of >= 3 fields
-		kept, removed := 0, 0
+		kept, removed, longListed := 0, 0, false
 		for _, f := range orig {
 			listed := false
 			for _, n := range fields {
 				if n == f.key {
 					listed = true
 				}
+			}
+			if listed && len(f.key) >= 64 {
+				longListed = true
 			}
 			if listed == allow {
 				kept++
@@ -536,6 +569,9 @@ func filterBatch(w *casefile.Writer, docs [][]byte, fields []string, allow bool,
 		}
 		nontrivial := len(fields) > 0 && kept > 0 && removed > 0 && len(orig) >= 3
 		w.Count("filter-kind:" + fkind)
+		if longListed {
+			w.Count("name>=64B-listed-and-present:" + mode(allow))
+		}
 		w.Count(fmt.Sprintf("doc-fields:%s", bucket(len(orig))))
 		if removed == 0 {
 			w.Count("effect:nothing-removed")
@@ -597,6 +633,14 @@ func keyPool(r *rng.R) []string {
 		if !seen[k] {
 			seen[k] = true
 			out = append(out, k)
+		}
+	}
+	if r.Bool() { // make long names common: present in documents and listed in filters
+		for i := r.Range(1, 3); i > 0; i-- {
+			if k := longKey(r); !seen[k] {
+				seen[k] = true
+				out = append(out, k)
+			}
 		}
 	}
 	return out
@@ -1043,7 +1087,7 @@ func streamPage(w *casefile.Writer, r *rng.R, rounds, docsPerRound, queries int)
 		func() {
 			defer c.stop()
 			pool := keyPool(r)
-			for _, must := range []string{"", " ", "a", "ab", "abc", "a.b"} { // empty name, names that are prefixes of each other
+			for _, must := range []string{"", " ", "a", "ab", "abc", "a.b", strings.Repeat("k8s_label.", 7)[:63], strings.Repeat("k8s_label.", 7)[:64], strings.Repeat("k8s_label.", 7)[:65], strings.Repeat("метка", 7)[:64]} { // empty name, names that are prefixes of each other
 				has := false
 				for _, k := range pool {
 					if k == must {
@@ -1101,6 +1145,18 @@ func streamPage(w *casefile.Writer, r *rng.R, rounds, docsPerRound, queries int)
 				fields, kind := genFilter(r, present, pool)
 				if len(fields) == 0 {
 					fields = []string{rng.Pick(r, present)}
+				}
+				if r.Chance(1, 3) { // name a present field whose name is 64 bytes or longer
+					var long []string
+					for _, k := range present {
+						if len(k) >= 64 {
+							long = append(long, k)
+						}
+					}
+					if len(long) > 0 {
+						fields = append(fields, rng.Pick(r, long))
+						kind += "+long"
+					}
 				}
 				if r.Bool() { // repeat names: `fields a, a`, `fields except b, a, b`
 					for i := r.Range(1, 2); i > 0; i-- {
@@ -1581,6 +1637,25 @@ func runConcChild(w *casefile.Writer, seed uint64, iters int, extra map[string]a
 	s.apply(w)
 }
 
+// cancelStream is a Fetch stream whose client goes away: the (k+1)-th Send fails and the context is cancelled
+type cancelStream struct {
+	grpc.ServerStream
+	ctx    context.Context
+	cancel func()
+	k      int
+	sent   [][]byte
+}
+
+func (s *cancelStream) Context() context.Context { return s.ctx }
+func (s *cancelStream) Send(m *pstoreapi.BinaryData) error {
+	if len(s.sent) >= s.k {
+		s.cancel()
+		return fmt.Errorf("rpc error: code = Canceled desc = context canceled")
+	}
+	s.sent = append(s.sent, append([]byte{}, m.Data...))
+	return nil
+}
+
 // concE2E is what the child does
 func concE2E(seed uint64, iters int) *sink {
 	w := &sink{}
@@ -1633,6 +1708,67 @@ func concE2E(seed uint64, iters int) *sink {
 		}
 		w.recs = append(w.recs, rec{Kind: "page", Class: via, Unf: a, Fil: b, Fields: fields, Allow: allow, In: in})
 	}
+	// fetches whose client goes away mid-stream: Send fails after k documents with the context cancelled
+	allStrs := make([]string, nd)
+	allIDs := make([]seq.ID, nd)
+	for i := range allStrs {
+		allStrs[i], allIDs[i] = qpr.IDs[i].ID.String(), qpr.IDs[i].ID
+	}
+	cfields, callow := []string{"small", "time"}, false
+	for _, k := range []int{0, 1, 3, 9} {
+		for si, reps := range c.env.HotStores {
+			ctx, cancel := context.WithCancel(context.Background())
+			cs := &cancelStream{ctx: ctx, cancel: cancel, k: k}
+			gc := debug.SetGCPercent(-1)
+			var pan any
+			func() {
+				defer func() { pan = recover() }()
+				_ = reps[0].GrpcV1().Fetch(&pstoreapi.FetchRequest{Ids: allStrs,
+					FieldsFilter: &pstoreapi.FetchRequest_FieldsFilter{Fields: cfields, AllowList: callow}}, cs)
+			}()
+			cancel()
+			in := map[string]any{"concurrent_seed": seed, "iters": iters, "cancel_after": k, "store": si}
+			if pan != nil {
+				debug.SetGCPercent(gc)
+				w.Violate("panic:cancelled-fetch", fmt.Sprintf("Fetch panics when its stream is cancelled after %d documents: %v", k, pan), in)
+				continue
+			}
+			// deterministic companion: right after it, filters acquired together must be distinct objects
+			held := []*storeapi.VerifC20Filter{storeapi.VerifC20Acquire([]string{"a"}, true), storeapi.VerifC20Acquire([]string{"b"}, false),
+				storeapi.VerifC20Acquire([]string{"c"}, true)}
+			for i := range held {
+				for j := i + 1; j < len(held); j++ {
+					if sf, sd := storeapi.VerifC20FilterIdentity(held[i], held[j]); sf || sd {
+						w.Violate("pool:double-release", fmt.Sprintf("after a Fetch whose stream was cancelled after %d documents (Send error, context cancelled), "+
+							"two filters acquired without a release in between are the same object: %v (same decoder: %v)", k, sf, sd), in)
+					}
+				}
+			}
+			for _, f := range held {
+				f.Release()
+			}
+			debug.SetGCPercent(gc)
+			for i, blk := range cs.sent { // what was sent before the client went away is still a projection
+				if b := disk.DocBlock(blk); b.Len() > 0 {
+					w.recs = append(w.recs, rec{Kind: "one", Class: "cancelled-fetch", Doc: plain[i], Fields: cfields, Allow: callow,
+						Out: append([]byte{}, b.Payload()...), In: in})
+				}
+			}
+			w.Count("cancelled-fetches")
+		}
+		// the same through the real gRPC client: read k documents, then cancel
+		ctx, cancel := context.WithCancel(context.Background())
+		if st, err := c.env.Ingestor().SearchIngestor.Documents(ctx, search.FetchRequest{IDs: allIDs,
+			FieldsFilter: search.FetchFieldsFilter{Fields: append([]string{}, cfields...), AllowList: callow}}); err == nil {
+			for i := 0; i < k; i++ {
+				if _, err := st.Next(); err != nil {
+					break
+				}
+			}
+		}
+		cancel()
+	}
+	time.Sleep(50 * time.Millisecond) // let the cancelled handlers leave
 	// G requests over disjoint sets of documents (g gets the positions congruent g mod G), at once
 	type ejob struct {
 		pos    []int
@@ -1651,7 +1787,7 @@ func concE2E(seed uint64, iters int) *sink {
 			ej[g].strs = append(ej[g].strs, qpr.IDs[p].ID.String())
 		}
 		if g%3 == 0 {
-			ej[g].fields, ej[g].allow = []string{"small", "time"}, false // keeps the big documents big
+			ej[g].fields, ej[g].allow = []string{"small", "time", rng.Pick(r, present)}, false // keeps the big documents big
 		} else {
 			ej[g].fields, _ = genFilter(r, present, pool)
 			if len(ej[g].fields) == 0 {
@@ -1755,7 +1891,6 @@ func concE2E(seed uint64, iters int) *sink {
 	}
 	return w
 }
-
 
 func sortedConc(seen map[concOut]bool) []concOut {
 	all := make([]concOut, 0, len(seen))
